@@ -20,7 +20,7 @@ NNPS = ['ll', 'box', 'sh', 'esh', 'ci', 'sfc', 'tree', 'comp_tree',
         'strat_hash', 'strat_sfc']
 THREADS = [1, 2, 3, 4, 8, 16]
 REORDER = [0, 1, 3]
-PROBLEMS = ['drop', 'tank', 'periodic']
+PROBLEMS = ['drop', 'tank', 'periodic', 'collide']
 DEFAULT = dict(nnps='ll', cache=False, openmp=False, threads=1, reorder=0,
                sort=False)
 
@@ -81,6 +81,44 @@ def _job(args):
     finally:
         shutil.rmtree(tmp, ignore_errors=True)
     return problem, res
+
+
+_CHILD = '''
+import pickle, sys
+sys.path.insert(0, %r)
+from vlib import build
+build.activate()
+from checks.c05_config_independence import run_app
+import io, contextlib
+buf = io.StringIO()
+with contextlib.redirect_stdout(buf):
+    out, count = run_app(%r, %r, %r)
+pickle.dump((out, count), open(%r, 'wb'))
+'''
+
+
+def _hashseed_job(args):
+    """The same configuration in a fresh interpreter with another
+    string-hash seed (the harness itself runs with PYTHONHASHSEED=0)."""
+    problem, cfg, hseed = args
+    import pickle
+    import subprocess
+    import sys
+    tmp = tempfile.mkdtemp(prefix='c05h_')
+    try:
+        res = os.path.join(tmp, 'res.pkl')
+        verif = os.path.dirname(os.path.dirname(os.path.abspath(__file__)))
+        code = _CHILD % (verif, problem, cfg, tmp, res)
+        env = dict(os.environ, PYTHONHASHSEED=str(hseed), VERIF_NOSYNC='1')
+        r = subprocess.run([sys.executable, '-c', code], env=env,
+                           stdout=subprocess.PIPE, stderr=subprocess.STDOUT,
+                           timeout=2400)
+        if r.returncode != 0 or not os.path.exists(res):
+            return problem, cfg, hseed, None, r.stdout.decode()[-400:]
+        out, count = pickle.load(open(res, 'rb'))
+        return problem, cfg, hseed, out, None
+    finally:
+        shutil.rmtree(tmp, ignore_errors=True)
 
 
 def cfg_key(c):
@@ -171,7 +209,15 @@ def run(ctx):
             for i in range(0, len(sub), k):
                 chunk = sub[i:i + k]
                 jobs.append((prob, chunk + chunk[:2]))
-    res = map_jobs(_job, jobs, ctx.ncpu, job_timeout=3000)
+    hcfg = dict(DEFAULT, sort=True)
+    hjobs = [(prob, hcfg, hs) for prob in PROBLEMS
+             for hs in (1 + ctx.seed, 2 + ctx.seed)]
+    both = map_jobs(lambda j: _job(j[1]) if j[0] == 'cfg' else
+                    _hashseed_job(j[1]),
+                    [('cfg', j) for j in jobs] + [('hash', j) for j in hjobs],
+                    ctx.ncpu, job_timeout=3000)
+    res = both[:len(jobs)]
+    hres = both[len(jobs):]
     viol = {}
     nrun = 0
     per = {}
@@ -235,6 +281,26 @@ def run(ctx):
                         ('with --sort-gids the final state is not bit '
                          'identical between %r and %r' % (sorted_ref[0], cfg),
                          dict(problem=prob, cfg=cfg, other=sorted_ref[0])))
+    # other string-hash seeds: bit-identical to the in-process run
+    for hj, r in zip(hjobs, hres):
+        prob = hj[0]
+        if isinstance(r, Crash):
+            viol.setdefault('config:%s:hashseed:crash' % prob, (
+                r.reason, dict(problem=prob, cfg=hcfg, hashseed=hj[2])))
+            continue
+        _, _, hs, out, err = r
+        nrun += 1
+        if err is not None:
+            viol.setdefault('config:%s:hashseed:error' % prob, (
+                err, dict(problem=prob, cfg=hcfg, hashseed=hs)))
+            continue
+        mine = [o for c, o, n in per.get(prob, []) if c == hcfg]
+        if mine and not identical(mine[0], out):
+            viol.setdefault('config:%s:not-reproducible:hashseed' % prob, (
+                'the run with identical options in a fresh process with '
+                'PYTHONHASHSEED=%d is not bit-identical to the run with '
+                'PYTHONHASHSEED=0' % hs,
+                dict(problem=prob, cfg=hcfg, hashseed=hs)))
     vs = [Violation(k, w, rep) for k, (w, rep) in sorted(viol.items())]
     cov = dict(evaluations=nrun, distinct_nontrivial=ndist,
                configurations_per_problem=len(cfgs), problems=PROBLEMS,
@@ -248,9 +314,13 @@ def run(ctx):
                     'combinations [every nnps x {2,16 threads}, x one more '
                     'thread count with cache, x reorder 1/3] (thorough: '
                     'nnps x cache x sort x reorder '
-                    'x {serial, 2, 3, 16 threads}); 3 problems (free '
+                    'x {serial, 2, 3, 16 threads}); 4 problems (free '
                     'surface, wall bounded, doubly periodic with two '
-                    'arrays), 6 steps; every chunk repeats two runs')
+                    'arrays, two separate blocks that start out of '
+                    'kernel range and then interact), 6 steps; every '
+                    'chunk repeats two runs; the default sorted '
+                    'configuration is also run in fresh processes with '
+                    'other string-hash seeds')
     assumptions = ['thread interleavings inside one run are not enumerated '
                    '(static OpenMP schedule: thread counts are)',
                    'agreement up to summation order: 1e-9 norm-wise relative '
@@ -260,6 +330,15 @@ def run(ctx):
 
 
 def replay(ctx, obj):
+    if 'hashseed' in obj:
+        tmp = tempfile.mkdtemp(prefix='c05_')
+        try:
+            a, ca = run_app(obj['problem'], obj['cfg'], tmp)
+        finally:
+            shutil.rmtree(tmp, ignore_errors=True)
+        r = _hashseed_job((obj['problem'], obj['cfg'], obj['hashseed']))
+        return dict(violates=r[3] is None or not identical(a, r[3]),
+                    error=r[4])
     tmp = tempfile.mkdtemp(prefix='c05_')
     try:
         a, ca = run_app(obj['problem'], dict(DEFAULT), tmp)
